@@ -2,6 +2,7 @@ package main
 
 import (
 	"fmt"
+	"go/types"
 	"sort"
 	"strings"
 
@@ -235,21 +236,177 @@ func runC19(c *Ctx) {
 	reg := &Region{Fn: fn, Cuts: cutSet(head)}
 	out := InterpretSafe(reg, &MapWorld{})
 	c.Ob("R19.2", "loadMd: start", strings.HasPrefix(out.Term, "cut:") && out.NextPhi["i"] == "0" && out.NextPhi["text"] == "true" && len(out.Events) == 0, fmt.Sprintf("start i=%s text=%s; required: index 0 in prose mode", out.NextPhi["i"], out.NextPhi["text"]), p.FnPos(fn))
-	// GetSource: rune buffer of the file, loadMd on it, the same buffer returned
+	// GetSource: the characters of the file, loadMd on them, the same buffer encoded again
 	if g := p.Func("internal/util/md", "GetSource"); g != nil {
 		var evs []string
 		reg := &Region{Fn: g, Summaries: map[string]Summary{
-			"os.ReadFile": func(r *Run, cc *ssa.CallCommon, args []Val) (Val, error) { return VTuple{VOpq{"RAW"}, VIface{}}, nil },
+			"os.ReadFile": func(r *Run, cc *ssa.CallCommon, args []Val) (Val, error) { return VTuple{VOpq{"FILE"}, VIface{}}, nil },
+			"*.decode": func(r *Run, cc *ssa.CallCommon, args []Val) (Val, error) {
+				evs = append(evs, "decode("+render(args[0])+")")
+				return VTuple{VOpq{"RUNES"}, VOpq{"RAWBYTES"}}, nil
+			},
 			"*.loadMd": func(r *Run, cc *ssa.CallCommon, args []Val) (Val, error) {
 				evs = append(evs, "loadMd("+render(args[0])+")")
 				return VTuple{}, nil
 			},
+			"*.encode": func(r *Run, cc *ssa.CallCommon, args []Val) (Val, error) {
+				evs = append(evs, "encode("+render(args[0])+","+render(args[1])+")")
+				return VOpq{"BYTES"}, nil
+			},
 		}}
 		out := InterpretSafe(reg, &MapWorld{})
-		ok := out.Term == "return" && strings.Join(evs, ";") == "loadMd([]rune(string(RAW)))" && len(out.Results) == 2 && out.Results[0] == "string([]rune(string(RAW)))" && out.Results[1] == "nil"
-		c.Ob("R19.2", "md.GetSource", ok, fmt.Sprintf("calls %v returns %v %s; required: decode the file into runes, blank it in place, return the same buffer as a string", evs, out.Results, out.Undecided), p.FnPos(g))
+		got := strings.Join(evs, ";")
+		okOld := got == "loadMd([]rune(string(FILE)))" && len(out.Results) == 2 && out.Results[0] == "string([]rune(string(FILE)))"
+		okNew := got == "decode(FILE);loadMd(RUNES);encode(RUNES,RAWBYTES)" && len(out.Results) == 2 && out.Results[0] == "string(BYTES)"
+		c.Ob("R19.2", "md.GetSource", out.Term == "return" && (okOld || okNew) && out.Results[1] == "nil", fmt.Sprintf("calls %v returns %v %s; required: the characters of the file, blanked in place by loadMd, the same buffer turned into text again", evs, out.Results, out.Undecided), p.FnPos(g))
+		// R19.3: what is not UTF-8 in a code section reaches the scanner as it is (a plain grammar file with such a byte is refused)
+		dec, enc := p.Func("internal/util/md", "decode"), p.Func("internal/util/md", "encode")
+		if dec == nil || enc == nil {
+			c.Ob("R19.3", "md.GetSource keeps undecodable bytes of code sections", false, "the file is converted with []rune(string(bytes)): every byte that is not UTF-8 becomes a valid U+FFFD, so a grammar that gocc refuses as a .bnf file (illegal UTF-8 encoding) is accepted inside a .md file", p.FnPos(g))
+		} else {
+			checkMdCodec(c, p, dec, enc)
+		}
 	}
+	checkLineOnlyFromNext(c, p, "R19.4")
+	checkProseRemoved(c, p, "R19.5")
 	c.Assumptions = append(c.Assumptions, "NOT decided: that fences are recognised at exactly the property's positions for every text (e.g. a fence starting at the rune right after a closing fence is not seen as a fence); diagnostics count columns in runes, and a blanked multi-byte rune becomes a one-byte space: offsets in bytes are not preserved, lines and rune columns are")
 	c.Trusted = append(c.Trusted, "go/ssa", "checker/sx.go")
 	c.Explanation = "C19, partial: decided are the dispatch (a file name ending in .md, and only that, goes through md.GetSource; its result is the one buffer the scanner gets) and the store discipline of loadMd, step by step in every world (prose/code mode x fence / partial fence / plain rune x newline or not x end of buffer): the only value ever written is a space, never over a newline; outside fences runes are blanked only in prose mode; a fence is blanked and toggles the mode, the rune after it is treated in the new mode; the buffer is never resliced, appended to or copied, and GetSource returns that same buffer. Hence line breaks and the number of runes per line are preserved and code runes are untouched, which gives equal packages and positions. NOT decided: exact fence recognition for every text."
+}
+
+func checkMdCodec(c *Ctx, p *Prog, dec, enc *ssa.Function) {
+	// decode, one round of the range over the file's text
+	if hs := loopHeaders(dec); len(hs) != 1 {
+		c.Undecided("R19.3", "md.decode", "expected one loop", p.FnPos(dec))
+	} else {
+		for _, wd := range []struct {
+			name   string
+			r, w   int64
+			rawKey bool
+		}{{"a well-formed character", 'x', 1, false}, {"a three-byte character", 0x20ac, 3, false}, {"the character U+FFFD itself", 0xfffd, 3, false}, {"a byte that is not UTF-8", 0xfffd, 1, true}} {
+			var apps []string
+			phis := map[string]Val{}
+			for _, in := range hs[0].Instrs {
+				if phi, ok := in.(*ssa.Phi); ok {
+					phis[phi.Comment] = VOpq{"PHI_" + phi.Comment}
+				}
+			}
+			phis["input"] = VSlice{Name: "OUT", Len: VSym{Name: "NOUT"}}
+			reg := &Region{Fn: dec, Start: hs[0], Cuts: cutSet(hs[0]), PhiInputs: phis,
+				PreWorld: &MapWorld{AtomFn: func(k string) (bool, bool) { return true, strings.HasPrefix(k, "more ") }, IntFn: func(s string) (int64, bool) { return 'q', true }},
+				Extern:   map[string]Val{"next:iter(string(inbuf))": VTuple{boolConst(true), VSym{Name: "i"}, VSym{Name: "R"}}},
+				Summaries: map[string]Summary{
+					"*.DecodeRune": func(r *Run, cc *ssa.CallCommon, args []Val) (Val, error) {
+						return VTuple{VSym{Name: "R2"}, VSym{Name: "W"}}, nil
+					},
+					"builtin:append": func(r *Run, cc *ssa.CallCommon, args []Val) (Val, error) {
+						apps = append(apps, render(args[0])+" ++ ["+strings.Join(r.VarargElems(args[1]), ",")+"]")
+						return VSlice{Name: "OUT2", Len: VSym{Name: "NOUT", Off: 1}}, nil
+					},
+				}, AtStart: func(r *Run, fr *frame) { apps = nil }}
+			out := InterpretSafe(reg, &MapWorld{Ints: map[string]int64{"i": 2, "R": wd.r, "R2": wd.r, "W": wd.w, "len(inbuf)": 9, "NOUT": 4}})
+			up := evs(out, "mapupdate")
+			ok := termOf(out) == "cut" && len(apps) == 1 && apps[0] == "OUT ++ [R]"
+			if wd.rawKey {
+				ok = ok && strings.HasPrefix(up, "mapupdate ") && strings.Contains(up, "[NOUT] = inbuf[i]")
+			} else {
+				ok = ok && up == ""
+			}
+			stepOb(c, out, "R19.3", "md.decode step: "+wd.name, ok, fmt.Sprintf("%s appends=%v updates=[%s] %s; required: every character of the text is appended, and a byte that is not UTF-8 (RuneError of width 1) is remembered under the index of its character", termOf(out), apps, up, out.Undecided), p.FnPos(dec))
+		}
+	}
+	// encode, one round
+	if hs := loopHeaders(enc); len(hs) != 1 {
+		c.Undecided("R19.3", "md.encode", "expected one loop", p.FnPos(enc))
+	} else {
+		for _, wd := range []struct {
+			name     string
+			has      bool
+			r        int64
+			wantByte bool
+		}{{"a remembered byte that loadMd left alone (code)", true, 0xfffd, true}, {"a remembered byte that loadMd blanked (prose)", true, ' ', false}, {"an ordinary character", false, 'x', false}, {"the character U+FFFD", false, 0xfffd, false}} {
+			var apps []string
+			reg := &Region{Fn: enc, Start: hs[0], Cuts: cutSet(hs[0]), PhiInputs: map[string]Val{"out": VOpq{"OUT"}, "rangeindex": VSym{Name: "k"}},
+				PreWorld:  lenWorld(5, nil),
+				LookupVal: func(r *Run, m, k Val, t types.Type) (Val, Val) { return VSym{Name: "RAWBYTE"}, boolConst(wd.has) },
+				Lazy: func(o *Obj, path string, t types.Type) Val {
+					if o.Name == "input" {
+						return VSym{Name: "R"}
+					}
+					return nil
+				},
+				Summaries: map[string]Summary{
+					"*.AppendRune": func(r *Run, cc *ssa.CallCommon, args []Val) (Val, error) {
+						apps = append(apps, "rune "+render(args[1]))
+						return VOpq{"OUT2"}, nil
+					},
+					"builtin:append": func(r *Run, cc *ssa.CallCommon, args []Val) (Val, error) {
+						apps = append(apps, "byte "+strings.Join(r.VarargElems(args[1]), ","))
+						return VOpq{"OUT2"}, nil
+					},
+				}}
+			out := InterpretSafe(reg, &MapWorld{Ints: map[string]int64{"k": 0, "R": wd.r}, IntFn: func(s string) (int64, bool) { return 5, strings.HasPrefix(s, "len(") }})
+			want := "rune R"
+			if wd.wantByte {
+				want = "byte RAWBYTE"
+			}
+			stepOb(c, out, "R19.3", "md.encode step: "+wd.name, termOf(out) == "cut" && len(apps) == 1 && apps[0] == want && out.NextPhi["out"] == "OUT2", fmt.Sprintf("%s appends=%v %s; required [%s]", termOf(out), apps, out.Undecided, want), p.FnPos(enc))
+		}
+	}
+}
+
+// R19.4: line numbers come from line breaks only. The scanner counts lines in next(); nothing else may set the
+// line (a "//line file:N" comment, which go/scanner honours, would make diagnostics point away from the text).
+func checkLineOnlyFromNext(c *Ctx, p *Prog, rule string) {
+	sp := p.SSAPkg("internal/frontend/scanner")
+	if sp == nil {
+		c.Undecided(rule, "front-end scanner", "package missing")
+		return
+	}
+	var writers []string
+	n := 0
+	for _, fn := range pkgFunctions(p, sp) {
+		for _, b := range fn.Blocks {
+			for _, in := range b.Instrs {
+				st, ok := in.(*ssa.Store)
+				if !ok {
+					continue
+				}
+				fa, ok := st.Addr.(*ssa.FieldAddr)
+				if !ok || fieldVar(fa).Name() != "Line" {
+					continue
+				}
+				n++
+				if fn.Name() != "next" && fn.Name() != "Init" {
+					writers = append(writers, p.FnName(fn)+" at "+p.Pos(in.Pos()))
+				}
+			}
+		}
+	}
+	if n == 0 {
+		c.Undecided(rule, "front-end scanner: line counting", "no store to a Line field found")
+		return
+	}
+	c.Ob(rule, "front-end scanner: the line is set by next() (and Init) only", len(writers) == 0, fmt.Sprintf("other writers: %v; required none — a //line directive inside a grammar (or a code block of a markdown file) must not move the positions of diagnostics", writers))
+}
+
+// R19.5: the text between code blocks does not reach the scanner. loadMd keeps positions by overwriting
+// prose with blanks; that is the same as leaving the prose out only where a token cannot span it.
+func checkProseRemoved(c *Ctx, p *Prog, rule string) {
+	fn := p.Func("internal/util/md", "loadMd")
+	if fn == nil {
+		c.Undecided(rule, "md.loadMd", "function not found")
+		return
+	}
+	blanks := 0
+	for _, b := range fn.Blocks {
+		for _, in := range b.Instrs {
+			if st, ok := in.(*ssa.Store); ok {
+				if k, ok := constIntOf(st.Val); ok && k == ' ' {
+					blanks++
+				}
+			}
+		}
+	}
+	c.Ob(rule, "md.loadMd: prose between code blocks is taken out of the text, not blanked", blanks == 0, fmt.Sprintf("%d stores of a space: the prose stays in the text as blanks and line breaks, which a token that may span lines (a raw string terminal, a << >> action, a /* */ comment) takes in when a code block ends inside it", blanks), p.FnPos(fn))
 }
